@@ -11,6 +11,12 @@ Pipeline of one run (the same for C10 and C11, only the deciding invariant diffe
      quick - every record; thorough - every record the mirror flagged or that drifted plus a seeded sample, and the
      records of the TCP layer test (`eyeballs tcp`: TcpTransport::connect_to_addrs against loopback ports).
      Only a record falsified there is a VIOLATION.
+  TCP wiring layer (both tiers): TLC checks spec/TcpEyeballs.tla (candidates with a local set-up outcome and a connect
+  outcome, stagger = timeout / original number of addresses, error mapping), refutes the as-built-style variants EagerSetup
+  and DelayFromDrainedList (standing demonstrations), and prints every TCP-level vector; `eyeballs tcp` realizes every
+  realizable vector without silent candidates plus a few named rows (set-up error of one family, black-holed first
+  candidates) through TcpTransport::connect_to_addrs / Service::call on loopback; the monitor evaluates the outcome-level
+  clauses Tcp_C10 / Tcp_C11 on them.  quick additionally runs a directed family with four attempts (Eyeballs_gen_quick4.cfg).
 """
 import json
 import os
@@ -21,8 +27,8 @@ import vlib
 
 KNOWN_CAP = 25          # violation files written per run for findings not listed in known_findings.json
 TIERS = {
-    "quick": dict(cfg="Eyeballs_gen_quick.cfg", all=True, sample=0, tlc_timeout=600, tcp=False, threads=4),
-    "thorough": dict(cfg="Eyeballs_gen_thorough.cfg", all=False, sample=250000, tlc_timeout=2400, tcp=True, threads=8),
+    "quick": dict(cfg="Eyeballs_gen_quick.cfg", cfg4="Eyeballs_gen_quick4.cfg", all=True, sample=0, tlc_timeout=600, threads=4),
+    "thorough": dict(cfg="Eyeballs_gen_thorough.cfg", cfg4=None, all=False, sample=250000, tlc_timeout=2400, threads=8),
 }
 MODEL_INVS = ("TypeOK", "C10Inv", "C11Inv", "Tight")
 ASSUMPTIONS = [
@@ -31,7 +37,9 @@ ASSUMPTIONS = [
     "a still pending operation is recorded as 'hang' after 1000 time units",
     "bounds: the tier's grid (N attempts, latency grid, delay/timeout/concurrency sets of spec/MC_Eyeballs.tla); beyond them nothing is claimed",
     "initial concurrency 0 is read as 'one attempt may start initially' (nothing would ever run otherwise), see notes/eyeballs.md",
-    "TCP layer (thorough only): loopback ports, one-sided observations (kind, connected candidate, lower bounds on elapsed time)",
+    "TCP layer: loopback ports, outcome-level observations (kind, connected candidate, class of the error) and one-sided time bounds; "
+    "a candidate's local set-up error is a bind to a documentation address the host does not own; a silent candidate is a listener with "
+    "backlog 1 and a full accept queue; loopback answers take far less than one stagger interval (>= 1 s in the slow rows)",
 ]
 
 
@@ -55,7 +63,7 @@ def _viol_lines(out):
 def scenario_key(rec):
     v = rec["v"]
     if rec.get("layer") == "tcp":
-        return "tcp:" + ",".join(v["oc"]) + f":t{v['tmoMs']}:c{v['conc']}"
+        return rec.get("name") or (",".join(v["oc"]) + f":t{v['tmoMs']}:c{v['conc']}")
     n = v["n"]
     atts = ",".join(f"{v['oc'][i]}{v['lat'][i]}" if v["oc"][i] != "never" else "never" for i in range(n))
     return f"n{n}:{atts}:d{v['delay']}:t{v['tmo']}:c{v['conc']}"
@@ -79,7 +87,7 @@ def monitor(pid, obs_path, nrecords):
     out = []
     for d in mine:
         rec = recs[d["k"] - 1]
-        clauses = sorted(c for c in d["clauses"] if c.startswith(pid) or c.startswith("Tcp_" + pid))
+        clauses = sorted(c for c in d["clauses"] if c.startswith(pid))
         out.append((rec, clauses))
     return out, r
 
@@ -91,7 +99,7 @@ def report(pid, falsified):
     n_unknown = 0
     known_seen = set()
     for rec, clauses in falsified:
-        key = "eb/" + "+".join(clauses) + "/" + scenario_key(rec)
+        key = ("tcp/" if rec.get("layer") == "tcp" else "eb/") + "+".join(clauses) + "/" + scenario_key(rec)
         hit = next((k for k in known if re.fullmatch(k["match"], key)), None)
         if hit is not None:
             if hit["id"] in known_seen:
@@ -101,10 +109,13 @@ def report(pid, falsified):
             n_unknown += 1
             if n_unknown > KNOWN_CAP:
                 continue
-        desc = f"{pid} falsified on the real EyeballSet: clauses {clauses}; scenario {json.dumps(rec['v'])}; observed {json.dumps(rec['o'])}"
         layer = rec.get("layer", "set")
+        what = "real TcpTransport on loopback" if layer == "tcp" else "real EyeballSet"
+        desc = f"{pid} falsified on the {what}: clauses {clauses}; scenario {json.dumps(rec['v'])}; observed {json.dumps(rec['o'])}"
+        if layer == "tcp":
+            desc += f"; row {rec.get('name')} api {rec.get('api')} local binding {rec.get('bind')} families {rec.get('families')}; {rec.get('msg', '')}"
         verdict.violation(key, desc, {"kind": "eyeballs", "layer": layer, "clauses": clauses,
-                                      "records": [{"sid": rec["sid"], "v": rec["v"], "o_recorded": rec["o"]}]})
+                                      "records": [{"sid": rec["sid"], "name": rec.get("name"), "v": rec["v"], "o_recorded": rec["o"]}]})
     code, _ = verdict.finish()
     if n_unknown > KNOWN_CAP:
         vlib.log(f"  ... {n_unknown} falsified records in total; the first {KNOWN_CAP} were written")
@@ -133,8 +144,38 @@ def run(pid, tier, seed, t0):
     never = [a for a in actions if cov.get(a, (0, 0))[1] == 0]
     n_init = cov.get("Init", (0, 0))[0]
 
+    # 1b. quick: a directed family with four attempts (same invariants, same generation)
+    vecs = [vec]
+    m4 = None
+    if T["cfg4"]:
+        vec4 = os.path.join(od, f"vec-{tier}-n4.txt")
+        if os.path.exists(vec4):
+            os.remove(vec4)
+        m4 = vlib.tlc("MC_Eyeballs", T["cfg4"], pid, workers=4, timeout=600, coverage=True, extra=["-userFile", vec4])
+        if m4.violated in MODEL_INVS or not m4.finished:
+            vlib.log(m4.out[-4000:])
+            raise vlib.ToolError(f"directed N=4 model: violated={m4.violated} finished={m4.finished}")
+        vecs.append(vec4)
+
+    # 1c. the TCP wiring layer: intended model (+ TCP-level vectors) and the two refuted variants
+    tcpvec = os.path.join(od, "tcpvec.txt")
+    if os.path.exists(tcpvec):
+        os.remove(tcpvec)
+    mt = vlib.tlc("MC_TcpEyeballs", "TcpEyeballs_quick.cfg", pid, workers=4, timeout=600, coverage=True, extra=["-userFile", tcpvec])
+    if mt.violated is not None or not mt.finished:
+        vlib.log(mt.out[-4000:])
+        raise vlib.ToolError(f"TCP layer model spec/TcpEyeballs.tla: violated={mt.violated} finished={mt.finished}")
+    variants = {}
+    for name, cfg in (("EagerSetup", "TcpEyeballs_eager.cfg"), ("DelayFromDrainedList", "TcpEyeballs_drained.cfg")):
+        rv = vlib.tlc("MC_TcpEyeballs", cfg, pid, workers=2, timeout=600)
+        variants[name] = {"cfg": cfg, "tlc_refutes": rv.violated}
+        if rv.violated is None:
+            vlib.log(f"note: TLC no longer refutes the variant {name} (spec/TcpEyeballs.tla changed?)")
+
     # 2. every scenario on the real EyeballSet --------------------------------------------------------------------------
-    args = ["run", "--vec", vec, "--out", od, "--seed", seed, "--sample", T["sample"], "--threads", T["threads"]]
+    args = ["run", "--out", od, "--seed", seed, "--sample", T["sample"], "--threads", T["threads"]]
+    for vp in vecs:
+        args += ["--vec", vp]
     if T["all"]:
         args.append("--all")
     summ = json.loads(vlib.run_harness("eyeballs", args, timeout=1800))
@@ -144,14 +185,16 @@ def run(pid, tier, seed, t0):
     if summ["inexact_time"]:
         raise vlib.ToolError(f"{summ['inexact_time']} scenarios observed instants that are not multiples of the time unit")
     nrec = summ["selected"]
-    tcp = None
-    if T["tcp"]:
-        tcp_path = os.path.join(od, "tcp.ndjson")
-        tcp = json.loads(vlib.run_harness("eyeballs", ["tcp", "--out", tcp_path], timeout=300))
-        with open(obs, "a") as f, open(tcp_path) as g:
-            for line in g:
-                f.write(line)
-                nrec += 1
+    # 2b. the TCP layer on loopback (both tiers)
+    tcp_path = os.path.join(od, "tcp.ndjson")
+    tcp = json.loads(vlib.run_harness("eyeballs", ["tcp", "--out", tcp_path, "--vec", tcpvec, "--tier", tier], timeout=600))
+    with open(obs, "a") as f, open(tcp_path) as g:
+        for line in g:
+            f.write(line)
+            nrec += 1
+    if tcp["drift"]:
+        vlib.log(f"DRIFT property={pid}: {tcp['drift']} loopback outcomes are not among the outcomes spec/TcpEyeballs.tla allows "
+                 f"(no verdict); first: {json.dumps(tcp['drift_examples'][:1])}")
     if summ["drift"]:
         vlib.log(f"DRIFT property={pid}: {summ['drift']} of {summ['scenarios']} real observations are not among the "
                  f"observations spec/Eyeballs.tla allows (no verdict); first: {json.dumps(summ['drift_examples'][:1])}")
@@ -161,9 +204,11 @@ def run(pid, tier, seed, t0):
     code, n_unknown = report(pid, falsified)
 
     mirror_flag = summ["mirror_flag_c10"] if pid == "C10" else summ["mirror_flag_c11"]
-    exhaustive = (summ["drift"] == 0 and n_init == summ["scenarios"] and not falsified)
+    n_init4 = m4.coverage().get("Init4", (0, 0))[0] if m4 else 0
+    exhaustive = (summ["drift"] == 0 and n_init + n_init4 == summ["scenarios"] and not falsified)
     coverage = {
-        "states": m.distinct, "transitions": m.generated, "depth": m.depth,
+        "states": m.distinct + (m4.distinct if m4 else 0) + mt.distinct,
+        "transitions": m.generated + (m4.generated if m4 else 0) + mt.generated, "depth": m.depth,
         "traces_validated_against_impl": nrec,
         "evaluations": summ["scenarios"],
         "distinct_nontrivial": summ["nontrivial"],
@@ -173,7 +218,12 @@ def run(pid, tier, seed, t0):
         "exhaustive": exhaustive,
         "samples": summ["samples"],
         "model": {"module": "MC_Eyeballs", "cfg": T["cfg"], "invariants": list(MODEL_INVS), "initial_states": n_init,
-                  "terminal_observations": summ["pairs"], "tlc_wall_s": round(m.wall, 1)},
+                  "states": m.distinct, "terminal_observations": summ["pairs"], "tlc_wall_s": round(m.wall, 1)},
+        "directed_n4_model": ({"cfg": T["cfg4"], "states": m4.distinct, "initial_states": n_init4,
+                               "scenarios_with_4_attempts_run": summ["scenarios_with_4_attempts"]} if m4 else None),
+        "tcp_layer_model": {"module": "MC_TcpEyeballs", "cfg": "TcpEyeballs_quick.cfg", "states": mt.distinct,
+                            "initial_states": mt.coverage().get("TcpInit", (0, 0))[0],
+                            "invariants": ["TypeOK", "TcpC10Inv", "TcpC11Inv", "TcpDelayInv"], "refuted_variants": variants},
         "tlc_coverage": {a: list(cov.get(a, (0, 0))) for a in ["Init"] + actions},
         "actions_never_taken": never,
         "real_results": summ["kinds"],
@@ -182,7 +232,7 @@ def run(pid, tier, seed, t0):
                   "meaning": "real observation (result, completion instant, start instant+rank and drop instant of every attempt) not among "
                              "the model's terminal observations for that scenario"},
         "monitor": {"module": "EyeballsObs", "cfg": f"EyeballsObs_{pid}.cfg", "records": nrec,
-                    "selection": "all scenarios" if T["all"] else f"mirror-flagged + drifted + seeded sample of {T['sample']} (+ TCP layer records)",
+                    "selection": ("all scenarios" if T["all"] else f"mirror-flagged + drifted + seeded sample of {T['sample']}") + " + all TCP-layer loopback records",
                     "falsified": len(falsified), "mirror_flagged": mirror_flag, "tlc_wall_s": round(mon.wall, 1)},
         "conc0_scenarios_using_the_max1_reading": summ["conc0_scenarios"],
         "tcp_layer": tcp,
@@ -200,10 +250,11 @@ def replay(pid, path):
     rp = doc.get("replay", doc)
     out = os.path.join(od, "replay.ndjson")
     if rp.get("layer") == "tcp":
-        vlib.run_harness("eyeballs", ["tcp", "--out", out], timeout=300)
-        want = {scenario_key({"layer": "tcp", "v": r["v"]}) for r in rp["records"]}
-        recs = [r for r in vlib.read_ndjson(out) if scenario_key(r) in want]
-        vlib.write_ndjson(out, recs)
+        tcpvec = os.path.join(od, "tcpvec-replay.txt")
+        if os.path.exists(tcpvec):
+            os.remove(tcpvec)
+        vlib.tlc("MC_TcpEyeballs", "TcpEyeballs_quick.cfg", pid, workers=2, timeout=600, extra=["-userFile", tcpvec])
+        vlib.run_harness("eyeballs", ["tcp", "--out", out, "--vec", tcpvec, "--tier", "thorough", "--only", os.path.abspath(path)], timeout=600)
     else:
         vlib.run_harness("eyeballs", ["one", "--in", os.path.abspath(path), "--out", out], timeout=300)
     n = len(vlib.read_ndjson(out))
